@@ -34,33 +34,33 @@ def log(*a):
 _built = {}
 
 
-def build_harness(variant="serial", profile="release"):
-    """Builds wfverif from /repo's current working tree. variant: serial | concurrent | async.
-    profile: release (no debug assertions / overflow checks) | dev (both on, like `cargo test`)."""
-    key = (variant, profile)
+def build_harness(pkg, variant="serial", profile="release"):
+    """Builds harness binary crate /verif/harness/<pkg> (package wf-<pkg>) from /repo's current working
+    tree. variant: serial | concurrent | async (cargo feature of that name defined by the crate).
+    profile: release (no debug assertions / overflow checks) | dev (both on, like `cargo test`).
+    Returns the path of a private copy of the binary."""
+    key = (pkg, variant, profile)
     if key in _built:
         return _built[key]
-    cmd = ["cargo", "build", "--offline", "--quiet"]
+    cmd = ["cargo", "build", "--offline", "--quiet", "-p", "wf-" + pkg]
     if profile == "release":
         cmd.append("--release")
-    if variant == "concurrent":
-        cmd += ["--features", "concurrent"]
-    elif variant == "async":
-        cmd += ["--features", "async"]
+    if variant in ("concurrent", "async"):
+        cmd += ["--features", variant]
     elif variant != "serial":
         raise ToolError("unknown variant " + variant)
-    env = dict(os.environ, CARGO_NET_OFFLINE="true", RUSTFLAGS_EXTRA="")
+    env = dict(os.environ, CARGO_NET_OFFLINE="true")
     t0 = time.time()
     p = subprocess.run(cmd, cwd=HARNESS, env=env, stdout=subprocess.PIPE, stderr=subprocess.STDOUT, text=True)
     if p.returncode != 0:
-        # a compile error of the code under test is a tool error, not a violation
+        # a compile error is a tool error, never a violation
         raise ToolError("cargo build failed:\n" + p.stdout[-6000:])
-    src = os.path.join(HARNESS, "target", "release" if profile == "release" else "debug", "wfverif")
+    src = os.path.join(HARNESS, "target", "release" if profile == "release" else "debug", "wf-" + pkg)
     dst_dir = os.path.join(HARNESS, "bin")
     os.makedirs(dst_dir, exist_ok=True)
-    dst = os.path.join(dst_dir, "wfverif-%s-%s" % (variant, profile))
+    dst = os.path.join(dst_dir, "wf-%s-%s-%s" % (pkg, variant, profile))
     shutil.copy2(src, dst)
-    log("[build] %s/%s in %.1fs" % (variant, profile, time.time() - t0))
+    log("[build] %s %s/%s in %.1fs" % (pkg, variant, profile, time.time() - t0))
     _built[key] = dst
     return dst
 
